@@ -34,6 +34,12 @@ type DecorCase struct {
 		Total, Cur    int64
 		Ops           []int64 `json:"ops"`
 		Durs          []int64 `json:"durs"`
+		Which         string  `json:"which"`
+		Par           int64   `json:"par"`
+		Calls         []struct {
+			Rem int64 `json:"rem"`
+			Dt  int64 `json:"dt"`
+		} `json:"calls"`
 	} `json:"c"`
 	Avg []struct {
 		Num int64 `json:"num"`
@@ -316,6 +322,50 @@ func checkSize(c *DecorCase) string {
 	return ""
 }
 
+// constAvg is a moving average that always answers one second per item: with it the raw estimate of the
+// moving-average ETA decorator is (total - current) seconds.
+type constAvg struct{}
+
+func (constAvg) Add(float64)    {}
+func (constAvg) Set(float64)    {}
+func (constAvg) Value() float64 { return float64(time.Second) }
+
+// checkNorm replays a normalizer case of Decor.tla on the fake clock of a synctest bubble: on the normalizer itself
+// and on a second instance inside the moving-average ETA decorator (whose raw estimate is steered through Statistics).
+func checkNorm(t *testing.T, c *DecorCase) string {
+	msg := ""
+	synctest.Test(t, func(t *testing.T) {
+		mk := func() decor.TimeNormalizer {
+			if c.C.Which == "fixed" {
+				return decor.FixedIntervalTimeNormalizer(int(c.C.Par))
+			}
+			return decor.MaxTolerateTimeNormalizer(time.Duration(c.C.Par) * time.Second)
+		}
+		raw := mk()
+		eta := decor.MovingAverageETA(decor.ET_STYLE_GO, constAvg{}, mk())
+		if len(c.Outs) != len(c.C.Calls) {
+			msg = "specification has another number of outputs than the case has calls"
+			return
+		}
+		for k, call := range c.C.Calls {
+			time.Sleep(time.Duration(call.Dt) * time.Second)
+			want := time.Duration(c.Outs[k]) * time.Second
+			if got := raw.Normalize(time.Duration(call.Rem) * time.Second); got != want && msg == "" {
+				msg = fmt.Sprintf("call %d: Normalize(%ds) %ds after the call before returns %v, the specification says %v", k+1, call.Rem, call.Dt, got, want)
+			}
+			st := decor.Statistics{Total: call.Rem + 5, Current: 5}
+			s, w := eta.Decor(st)
+			if d, err := time.ParseDuration(s); (err != nil || d != want) && msg == "" {
+				msg = fmt.Sprintf("call %d: the ETA decorator with %d items left at 1s per item prints %q, the specification says %v", k+1, call.Rem, s, want)
+			}
+			if w != runewidth.StringWidth(s) && msg == "" {
+				msg = fmt.Sprintf("call %d: the ETA decorator reports width %d for %q", k+1, w, s)
+			}
+		}
+	})
+	return msg
+}
+
 func checkTime(t *testing.T, c *DecorCase) string {
 	msg := ""
 	synctest.Test(t, func(t *testing.T) {
@@ -473,6 +523,8 @@ func TestDecorCases(t *testing.T) {
 				msg = checkMedian(&c)
 			case "avg":
 				msg = checkAvg(&c)
+			case "norm":
+				msg = checkNorm(t, &c)
 			}
 		}()
 		if msg != "" {
